@@ -336,6 +336,11 @@ def run_oc_batch(ctx: Ctx, drv: Optional[Driver], bases: list[tuple], derived: l
                         w = cand
                         break
             port_acc = plain = None
+            if w is not None and any(cm.ref_accepts(d, c) and not cm.ref_accepts(b, c)
+                                     for c in cm.words_upto(alpha, 3 if len(alpha) <= 6 else 2)):
+                # the content models alone are not included: C14-F0 territory, whose match rule needs the port
+                ctx.count('open-content:undecided-without-lean')
+                continue
         else:
             if 'err' in ans:
                 ctx.mismatch('driver error (open content)', case, None, ans)
@@ -366,6 +371,8 @@ def run_oc_batch(ctx: Ctx, drv: Optional[Driver], bases: list[tuple], derived: l
             continue
         detail = {'witness_children': w, 'valid_for_derived': vd, 'valid_for_base': vb, 'port_accepts': port_acc,
                   'plain_models_included': None if plain is None else plain == 'included'}
+        if ocd is None and ocb is None and ans is not None:
+            detail['plain_models_included'] = False       # no open content at all: the witness is one of the plain models
         fid = oc_known_match(case, detail)
         if fid:
             ctx.known_hit(fid, case, detail)
